@@ -6,12 +6,30 @@ use opentelemetry_proto::tonic::collector::metrics::v1::ExportMetricsServiceRequ
 use prost::Message;
 
 fuzz_target!(|data: &[u8]| {
-    if let Ok(req) = ExportMetricsServiceRequest::decode(data) {
-        let points = cardinalsin::api::ingest::otlp::export_request_to_data_points(&req);
-        let n = points.len();
-        match cardinalsin::api::ingest::otlp::export_request_to_arrow(&req) {
-            Ok(batch) => assert_eq!(batch.num_rows(), n, "one row per data point"),
-            Err(_) => {}
+    guarded(std::panic::AssertUnwindSafe(|| {
+        if let Ok(req) = ExportMetricsServiceRequest::decode(data) {
+            let points = cardinalsin::api::ingest::otlp::export_request_to_data_points(&req);
+            let n = points.len();
+            match cardinalsin::api::ingest::otlp::export_request_to_arrow(&req) {
+                Ok(batch) => assert_eq!(batch.num_rows(), n, "one row per data point"),
+                Err(_) => {}
+            }
         }
-    }
+    }));
 });
+
+/// libfuzzer-sys installs a panic hook that aborts the process, which would turn panics that
+/// the code under test catches itself (e.g. around the Arrow IPC decoder) into crashes.
+/// Replace it by a recording hook; anything that *escapes* the target body aborts explicitly.
+fn guarded(f: impl FnOnce() + std::panic::UnwindSafe) {
+    static INIT: std::sync::Once = std::sync::Once::new();
+    INIT.call_once(|| {
+        std::panic::set_hook(Box::new(|info| {
+            eprintln!("panicked: {}", info);
+        }));
+    });
+    if std::panic::catch_unwind(f).is_err() {
+        eprintln!("VIOLATION: a panic escaped the receiver / the oracle failed");
+        std::process::abort();
+    }
+}
